@@ -248,6 +248,30 @@ def weak_lazy_sites(case, m):
     return out
 
 
+KNOWN_COMDAT = "comdat-stronger-definition-in-later-group-wins"
+
+
+def comdat_strength_names(case, m):
+    """Exact domain of the second known finding: a name whose first COMDAT group (command-line
+    order, loaded files) defines it weakly while a later COMDAT group with the same signature
+    defines it strongly. ELF (and GNU ld, lld) keep the first group and discard the later one, so
+    the weak definition is the only one; wild selects by strength first and binds to the strong
+    definition inside the group that should have been discarded."""
+    out = set()
+    first_strength = {}
+    for fi, f in enumerate(case["files"]):
+        if not m["loaded"][fi] or f["kind"] == "so":
+            continue
+        for ni, strength, _vis, _size, comdat in f["defs"]:
+            if not comdat:
+                continue
+            if ni not in first_strength:
+                first_strength[ni] = strength
+            elif first_strength[ni] == "weak" and strength == "strong":
+                out.add(ni)
+    return out
+
+
 def build_inputs(case, d):
     """Writes all inputs; returns the command-line file arguments."""
     args = [symgen.runtime_obj(d)]
@@ -264,7 +288,7 @@ def build_inputs(case, d):
             args.append(f"f{fi}.o")
         elif f["kind"] == "ar":
             symgen.build_obj(spec, f"m{fi}.o", d)
-            tools.ar(f"liba{fi}.a", [f"m{fi}.o"], cwd=d)
+            symgen.ar(f"liba{fi}.a", [f"m{fi}.o"], cwd=d)
             args.append(f"liba{fi}.a")
         else:
             symgen.build_shared(spec, f"libs{fi}.so", d, soname=f"libs{fi}.so")
@@ -424,6 +448,8 @@ class C02(Check):
             s0 = diff[0]
             if set(diff) <= set(weak_lazy_sites(case, m)) and all(wr.values.get(x, 1) is None for x in diff):
                 sig = KNOWN_WEAK_LAZY
+            elif {x % 16 for x in diff} <= comdat_strength_names(case, m):
+                sig = KNOWN_COMDAT
             elif s0 in m["sites"] and s0 in wr.values:
                 exp, got = describe_win(case, m, s0, wr.values[s0])
                 sig = f"bind:{exp}>{got}"
@@ -505,6 +531,8 @@ class C02(Check):
         m = model(case)
         if not m["error"] and weak_lazy_sites(case, m):
             return KNOWN_WEAK_LAZY
+        if comdat_strength_names(case, m):
+            return KNOWN_COMDAT
         return None
 
     @staticmethod
